@@ -127,6 +127,19 @@ func pricingText(name string) string {
 		return `{"price":"1stake","promotions_by_volume":[{"volume":1,"discount":"0.5","note":"x"}]}`
 	case "p1d": // a "discount" above 1: refused by the schema only
 		return `{"price":"1stake","promotions_by_volume":[{"volume":1,"discount":"1.5"}]}`
+	// prices in a main unit or a foreign token (host chain with a token module, scenario S-FX)
+	case "fusd1": // 1usd = 100cent
+		return `{"price":"1usd"}`
+	case "fusd1v":
+		return `{"price":"1usd","promotions_by_volume":[{"volume":1,"discount":"0.5"}]}`
+	case "fcent150":
+		return `{"price":"150cent"}`
+	case "fkilo2": // 0.002kilo = 2stake
+		return `{"price":"0.002kilo"}`
+	case "fkilo1h": // 0.0015kilo = 1.5stake, stored as 1
+		return `{"price":"0.0015kilo"}`
+	case "fyen": // a token the host chain does not know
+		return `{"price":"1yen"}`
 	}
 	panic("unknown pricing " + name)
 }
